@@ -138,8 +138,7 @@ class C15:
         'z: mean 0 and standard deviation 1 are compared with tolerance 1e-9 on the Python side (binary64 rounding is not '
         'modelled); the theorems are over exact rationals with s*s = variance as a hypothesis; element-wise column '
         'arithmetic is C13',
-        'z on an IntColumn truncates the scores to integers (result is an IntColumn): reported as a finding, the generator '
-        'skips IntColumn for z',
+        'z of an IntColumn returns a FloatColumn (repaired defect: the scores used to be truncated to integers)',
         'replace on numeric columns: keys and values are numbers (other objects are outside the claim; the model still '
         'describes the exceptions NumPy raises for them)',
     ]
@@ -339,8 +338,8 @@ class C15:
         kd = kind_of(col)
         pyfail = prob
         src_cells = list(col)
-        if len({float(x) for x in src_cells if isinstance(x, (int, float)) and math.isfinite(x)}) < 2 or kd == 'KInt':
-            return None          # outside the quantifier (and see the IntColumn finding)
+        if len({float(x) for x in src_cells if isinstance(x, (int, float)) and math.isfinite(x)}) < 2:
+            return None          # outside the quantifier
         if kd == 'KFloat' and any(isinstance(x, float) and math.isinf(x) for x in src_cells):
             return None          # FloatColumn.mean/std use nanmean/nanstd: an infinite cell makes every score nan (noted)
         cl = L.lst(pyobs.val(x) or 'VNone' for x in src_cells)
@@ -644,23 +643,24 @@ class C15:
                 inp['exact_s'] = [exact_s.numerator, exact_s.denominator]
             cases.append(self.rerun(inp))
         for _ in range(150 if tier == 'quick' else 2500):
-            kd = rng.choice(['KFloat', 'KMixed'])
+            kd = rng.choice(['KFloat', 'KMixed', 'KInt'])
             n = rng.randint(2, 8)
             while True:
-                nums = [rng.choice([rng.randint(-20, 20), rng.randint(-2000, 2000) / 8.0, rng.uniform(-1e3, 1e3)])
+                nums = [rng.choice([rng.randint(-20, 20), rng.randint(-2000, 2000) / 8.0, rng.uniform(-1e3, 1e3)]
+                                   if kd != 'KInt' else [rng.randint(-20, 20)])
                         for _ in range(n)]
                 if len(set(float(x) for x in nums)) >= 2:
                     break
             cells = list(nums)
-            junk = {'KMixed': ['x', None, NAN, INF, '', 'é'], 'KFloat': [NAN]}[kd]
-            for _j in range(rng.randint(0, 3)):
+            junk = {'KMixed': ['x', None, NAN, INF, '', 'é'], 'KFloat': [NAN], 'KInt': []}[kd]
+            for _j in range(rng.randint(0, 3) if junk else 0):
                 cells.insert(rng.randrange(len(cells) + 1), rng.choice(junk))
             one(kd, cells)
         # families with a rational standard deviation: a-d, a, a+d  and  a-d, a-d, a, a+d, a+d  (s = d)
         for _ in range(40 if tier == 'quick' else 400):
-            kd = rng.choice(['KFloat', 'KMixed'])
-            a = rng.choice([rng.randint(-9, 9), rng.randint(-40, 40) / 4.0])
-            d = rng.choice([1, 2, 4, 0.5, 8, 0.25])
+            kd = rng.choice(['KFloat', 'KMixed', 'KInt'])
+            a = rng.choice([rng.randint(-9, 9), rng.randint(-40, 40) / 4.0]) if kd != 'KInt' else rng.randint(-9, 9)
+            d = rng.choice([1, 2, 4, 0.5, 8, 0.25]) if kd != 'KInt' else rng.choice([1, 2, 4, 8])
             cells = rng.choice([[a - d, a, a + d], [a - d, a - d, a, a + d, a + d]])
             rng.shuffle(cells)
             if kd == 'KMixed' and rng.random() < 0.5:
